@@ -18,6 +18,7 @@ import (
 	metav1 "k8s.io/apimachinery/pkg/apis/meta/v1"
 
 	"verif/explore"
+	"verif/harness/c09"
 	"verif/harness/ctl"
 	"verif/harness/fakeapi"
 	"verif/harness/hx"
@@ -46,8 +47,12 @@ type cfg struct {
 	Init    []metav1.Object
 	Hist    []pop
 	Refs    []int // Refilter script for the top node
-	Mode    string
-	Bound   int
+	// ordering of the drivers (default: all concurrent): RefsAfterHist - the Refilter script starts once the parent's
+	// history is over; HistAfterRefs - the history starts once every Refilter call has returned
+	RefsAfterHist, HistAfterRefs bool
+	Sibling                      bool // a plain sibling subscription, created first, is closed while the history runs
+	Mode                         string
+	Bound                        int
 }
 
 // reference parent content after k parent operations (parent filter Null).
@@ -161,8 +166,12 @@ func (in *inst) run() {
 	in.nodeFinal = map[string]string{}
 	in.readyFinal = map[string]bool{}
 	// driver 1: the parent (first list, then the history)
+	histOver, refsOver := make(chan struct{}), make(chan struct{})
 	go func() {
 		in.root.Init(c.Init)
+		if c.HistAfterRefs {
+			<-refsOver
+		}
 		for _, p := range c.Hist {
 			switch p.kind {
 			case "relist":
@@ -176,7 +185,18 @@ func (in *inst) run() {
 			}
 		}
 		in.histDone = true
+		close(histOver)
 	}()
+	if c.Sibling {
+		// a sibling subscription that is closed while events flow: the others may not lose anything because of it
+		if sib, err := in.root.Pub.Subscribe(); err == nil {
+			go func() {
+				for range sib.Events() {
+				}
+			}()
+			go sib.Close()
+		}
+	}
 	// main: build the nodes (races with the parent becoming ready and with its events)
 	in.nodes = hx.Build(in.root.Pub, in.spec(), nil, "", nil)
 	in.builtOK = true
@@ -215,6 +235,10 @@ func (in *inst) run() {
 	}
 	// driver 2: the Refilter script on the top node
 	go func() {
+		if c.RefsAfterHist {
+			<-histOver
+		}
+		defer close(refsOver)
 		for _, f := range c.Refs {
 			in.refStarted++
 			vs.Note(uint64(in.refStarted))
@@ -475,6 +499,15 @@ func configs(tier string) []cfg {
 		{Name: "dsub/init-a1,b1/refilter(l=1)/upd-a2(l=0)", Variant: "dsub", Init: init2, Hist: h2[:1], Refs: []int{2}, Mode: "S2", Bound: d + 1},
 		{Name: "fclone[l=1]>sub/init-a1,b1/upd-a2(l=0)", Variant: "fclone>sub", F0: 2, Init: init2, Hist: h2[:1], Mode: "S2", Bound: d + 1},
 		{Name: "dsub/refilter(l=1)/cre-b", Variant: "dsub", Init: init1, Hist: []pop{{kind: "create", obj: b(2, "1")}}, Refs: []int{2}, Mode: "S1"},
+		// the parent is empty when a ready node is refiltered; objects appear afterwards
+		{Name: "fsub[l=1]/empty-parent/refilter(l=0)/then-cre-a(l=0),cre-b(l=1)", Variant: "fsub", F0: 2, Hist: []pop{{kind: "create", obj: a(1, "0")}, {kind: "create", obj: b(2, "1")}}, Refs: []int{3}, HistAfterRefs: true, Mode: "S2", Bound: d},
+		{Name: "fclone[l=1]>sub/empty-parent/refilter(l=0)/then-cre-a(l=0),cre-b(l=1)", Variant: "fclone>sub", F0: 2, Hist: []pop{{kind: "create", obj: a(1, "0")}, {kind: "create", obj: b(2, "1")}}, Refs: []int{3}, HistAfterRefs: true, Mode: "S2", Bound: d},
+		// a deferred node gets its first filter after its parent became ready AND changed again
+		{Name: "dsub/init-a1,b1/upd-a2(l=0),cre... then refilter(l=1)", Variant: "dsub", Init: init2, Hist: h2, Refs: []int{2}, RefsAfterHist: true, Mode: "S2", Bound: d},
+		{Name: "dclone>sub/init-a1/h3 then refilter(Null)", Variant: "dclone>sub", Init: init1, Hist: h3, Refs: []int{0}, RefsAfterHist: true, Mode: "S2", Bound: d},
+		// a sibling subscription is closed while the history runs
+		{Name: "fsub[l=1]/sibling-closed/h3", Variant: "fsub", F0: 2, Init: init1, Hist: h3, Sibling: true, Mode: "S2", Bound: d},
+		{Name: "fclone[l=1]>sub/sibling-closed/h3", Variant: "fclone>sub", F0: 2, Init: init1, Hist: h3, Sibling: true, Mode: "S2", Bound: d},
 		// one parent event racing with one post-ready Refilter, one deviation more than the rest (the event has to land
 		// between the refilter's list of the parent and the end of its processing)
 		{Name: "fsub[l=1]/refilter(l=0)/upd-a2(l=0)", Variant: "fsub", F0: 2, Init: init1, Hist: h2[:1], Refs: []int{3}, Mode: "S2", Bound: d + 1},
@@ -569,9 +602,10 @@ func Property(id string) runner.Property {
 		"C08": "oracle: a node observed ready implies the parent is ready and (deferred) a Refilter call has started; List() read immediately after Ready() equals filter_f(P) for a parent content P and a filter f set so far; no event is received while Ready() is open; every node with a filter is ready at quiescence, a deferred node without filter never is",
 	}
 	return runner.Property{
-		ID:    id,
-		Level: "model_checking",
-		Rule:  "filterSubscription seam (real parent cache, root subscription, publisher, filterSubscription immediate/deferred, nested under filtered clones); three concurrent drivers: parent first list + history (creates, label flips in and out of the filter, deletes, relist), Refilter script (incl. back to an earlier filter and a non-comparable FN), node construction; all interleavings (S1) for the smallest, deviation-bounded (S2, d<=2 quick / 3 thorough) otherwise; " + rule[id],
+		ID:           id,
+		Level:        "model_checking",
+		QuickBudgetS: 300,
+		Rule:         "filterSubscription seam (real parent cache, root subscription, publisher, filterSubscription immediate/deferred, nested under filtered clones); three concurrent drivers: parent first list + history (creates, label flips in and out of the filter, deletes, relist), Refilter script (incl. back to an earlier filter and a non-comparable FN), node construction; all interleavings (S1) for the smallest, deviation-bounded (S2, d<=2 quick / 3 thorough) otherwise; " + rule[id],
 		Assumptions: []string{
 			"histories of <= 3 parent operations over 2 keys, <= 2 Refilter calls, nesting depth <= 2",
 			"the controller-level clauses of C08 (Ready only after the first list is applied; failed first list never ready) are checked by the whole-controller scenarios of C03/C14",
@@ -581,10 +615,12 @@ func Property(id string) runner.Property {
 			for _, c := range configs(tier) {
 				out = append(out, scenario(id, c))
 			}
+			sort.SliceStable(out, func(i, j int) bool { return out[i].Mode == "S2" && out[j].Mode != "S2" })
 			if id == "C08" {
+				// joins: ready only after source and destination are (cheap: first, the rest inherits their unused time)
+				out = append(c09.ReadinessScenarios("C08", tier), out...)
 				out = append(out, controllerScenarios(tier)...)
 			}
-			sort.SliceStable(out, func(i, j int) bool { return out[i].Mode == "S2" && out[j].Mode != "S2" })
 			return out
 		},
 	}
